@@ -20,12 +20,6 @@ from .par import pmap
 from .tlc import MachineryError, Validation, validate_traces
 
 HERE = os.path.dirname(os.path.abspath(__file__))
-# TLC work directories of these checks live under /verif/.cache (git-ignored) unless the caller chose a place: on the
-# shared machine another job's clean-up of /tmp/tlc-* removed a running validation's state directory once (exit 2)
-if not os.environ.get("VF_SCRATCH"):
-    _scr = os.path.join(os.path.dirname(os.path.dirname(HERE)), ".cache", "scratch-fix")
-    os.makedirs(_scr, exist_ok=True)
-    os.environ["VF_SCRATCH"] = _scr
 DEPS = [os.path.join(HERE, "fixrec.py"), os.path.join(HERE, "fixinputs.py")]
 
 # ------------------------------------------------------------------------------------ recording (cached)
